@@ -175,6 +175,35 @@ Theorem C13_rekey_only_key : forall A L d P, wfb A = true -> generate_adms A = O
 Proof. exact rekey_only_key. Qed.
 Print Assumptions C13_rekey_only_key.
 
+(* store-level frame of the re-keying: rewrite_delegations on the graph stored under gid changes nothing outside
+   that graph (the source, the other partitions, other models), and what it does to that graph is
+   rewrite_delegations; hence partition / re-key a partition / partition again finds the source as it was and
+   yields the same models.  (That no state is shared through the parsed Delegations objects either is what the
+   `hist` stream of the correspondence checks: re-keying, then parsing the source again through the API.) *)
+Theorem C13_rekey_frame : forall st gid key k, k <> gid ->
+  sget (fst (st_rewrite_delegations st gid key)) k = sget st k.
+Proof. exact rekey_frame. Qed.
+Print Assumptions C13_rekey_frame.
+
+Theorem C13_rekey_in_store : forall st gid key g, sget st gid = Some g ->
+  sget (fst (st_rewrite_delegations st gid key)) gid = Some (fst (rewrite_delegations g key)) /\
+  snd (st_rewrite_delegations st gid key) = snd (rewrite_delegations g key).
+Proof. exact rekey_at. Qed.
+Print Assumptions C13_rekey_in_store.
+
+Theorem C13_rekey_then_repartition : forall st garm A sup1 fresh1 st1 dgs1 d gid key sup2 fresh2 st3 dgs2,
+  sget st garm = Some A -> wfb A = true ->
+  uuid_fresh garm sup1 fresh1 (c_ids (catalog_delegations A)) ->
+  uuid_fresh garm sup2 fresh2 (c_ids (catalog_delegations A)) ->
+  st_generate_adms st garm sup1 fresh1 = (st1, Ok dgs1) -> In (d, gid) dgs1 ->
+  let st2 := fst (st_rewrite_delegations st1 gid key) in
+  st_generate_adms st2 garm sup2 fresh2 = (st3, Ok dgs2) ->
+  gid <> garm /\ sget st2 garm = Some A /\
+  exists L, generate_adms A = Ok L /\ sget st3 garm = Some A /\
+    (forall d' P, In (d', P) L -> sget st3 (gid_for sup2 fresh2 d') = Some P).
+Proof. exact rekey_then_repartition. Qed.
+Print Assumptions C13_rekey_then_repartition.
+
 Theorem C13_rekeyed_changes_only_the_key : forall gid n,
   nid (rekeyed gid n) = nid n /\ ncls (rekeyed gid n) = ncls n /\ nstitch (rekeyed gid n) = nstitch n /\
   nprops (rekeyed gid n) = nprops n /\
